@@ -57,20 +57,30 @@ def schedule (data : ByteArray) (off : Nat) : Array UInt32 := Id.run do
 
 /-- One of the 80 steps. -/
 @[inline] def step (w : Array UInt32) (t : Nat) (s : State) : State :=
-  let (f, k) : UInt32 × UInt32 :=
-    if t < 20 then ((s.b &&& s.c) ||| (~~~s.b &&& s.d), 0x5a827999)
-    else if t < 40 then (s.b ^^^ s.c ^^^ s.d, 0x6ed9eba1)
-    else if t < 60 then ((s.b &&& s.c) ||| (s.b &&& s.d) ||| (s.c &&& s.d), 0x8f1bbcdc)
-    else (s.b ^^^ s.c ^^^ s.d, 0xca62c1d6)
+  let f : UInt32 :=
+    if t < 20 then (s.b &&& s.c) ||| (~~~s.b &&& s.d)
+    else if t < 40 then s.b ^^^ s.c ^^^ s.d
+    else if t < 60 then (s.b &&& s.c) ||| (s.b &&& s.d) ||| (s.c &&& s.d)
+    else s.b ^^^ s.c ^^^ s.d
+  let k : UInt32 :=
+    if t < 20 then 0x5a827999
+    else if t < 40 then 0x6ed9eba1
+    else if t < 60 then 0x8f1bbcdc
+    else 0xca62c1d6
   ⟨rotl s.a 5 + f + s.e + k + w.getD t 0, s.a, rotl s.b 30, s.c, s.d⟩
 
+/-- Steps `t, t + 1, …, t + n - 1`.  The state is passed as five scalars so that the
+compiled loop keeps it in registers. -/
+def steps (w : Array UInt32) : (n t : Nat) → (a b c d e : UInt32) → State
+  | 0, _, a, b, c, d, e => ⟨a, b, c, d, e⟩
+  | n + 1, t, a, b, c, d, e =>
+    let s := step w t ⟨a, b, c, d, e⟩
+    steps w n (t + 1) s.a s.b s.c s.d s.e
+
 /-- Compress the 64-octet block starting at `off`. -/
-def compress (data : ByteArray) (off : Nat) (h : State) : State := Id.run do
-  let w := schedule data off
-  let mut s := h
-  for t in [0:80] do
-    s := step w t s
-  return ⟨h.a + s.a, h.b + s.b, h.c + s.c, h.d + s.d, h.e + s.e⟩
+def compress (data : ByteArray) (off : Nat) (h : State) : State :=
+  let s := steps (schedule data off) 80 0 h.a h.b h.c h.d h.e
+  ⟨h.a + s.a, h.b + s.b, h.c + s.c, h.d + s.d, h.e + s.e⟩
 
 /-- SHA-1 of a `ByteArray`. -/
 def hash (msg : ByteArray) : ByteArray := Id.run do
@@ -84,6 +94,6 @@ end Sha1
 
 /-- SHA-1 digest (20 octets) of `msg`, FIPS 180-4. -/
 def sha1 (msg : List UInt8) : List UInt8 :=
-  (Sha1.hash (ByteArray.mk msg.toArray)).toList
+  (Sha1.hash (msg.foldl ByteArray.push (ByteArray.emptyWithCapacity (msg.length + 72)))).toList
 
 end GufoSnmp.Crypto
